@@ -423,6 +423,7 @@ def observe_session(case: dict) -> dict:
     x: np.ndarray | None = None
     x_expected: np.ndarray | None = None
     held: list[tuple[int, str, np.ndarray, np.ndarray]] = []  # results returned so far: (step, kind, array, copy)
+    kept: list[tuple[int, np.ndarray, np.ndarray]] = []  # values returned by the root (evaluate/func) outside the buffer
     for k, st in enumerate(case["script"]):
         rec: dict[str, Any] = {}
         d = st["do"]
@@ -443,6 +444,17 @@ def observe_session(case: dict) -> dict:
                 else:
                     out = target.jac(x)
                 rec["got"] = canon_jac(out) if d == "j" else canon_value(out)
+                if d != "j" and not st.get("on"):
+                    # storage pattern of the values returned by the root (compared with `Hist` of the model)
+                    in_buf = isinstance(out, np.ndarray) and bool(np.shares_memory(out, x))
+                    rec["in_buffer"] = in_buf
+                    if not in_buf:
+                        arr = out if isinstance(out, np.ndarray) and out.dtype != object else np.atleast_1d(np.array(out, dtype=float))
+                        rec["shares_with"] = [ks for ks, a_, _ in kept if np.shares_memory(arr, a_)]
+                        kept.append((k, arr, arr.copy()))
+                    else:
+                        rec["shares_with"] = []
+                    rec["kept_changed"] = [ks for ks, a_, ref in kept if a_.shape != ref.shape or not np.array_equal(a_, ref, equal_nan=True)]
                 if isinstance(out, np.ndarray) and out.dtype != object:
                     if np.shares_memory(out, x):
                         # the function returned (a view of) the caller's own buffer - a user function x -> x[...] called
@@ -742,11 +754,20 @@ def session_lines(case: dict) -> tuple[list[str], list[tuple[int, int]]]:
     tree = copy.deepcopy(case["tree"])
     nodes = walk(tree, n)
     edited = sorted({s["leaf"] for s in case["script"] if s["do"] == "set"})
+    # a leaf object used at several places of the tree ("share" key) is ONE registered object of the model's session,
+    # referred to by `U <id>` at every occurrence
+    shared_first: dict[Any, int] = {}
+    for k, (nd, nn) in enumerate(nodes):
+        if nd.get("share") is not None and nd["op"] in LEAVES:
+            shared_first.setdefault(nd["share"], k)
     lines = ["sess"]
-    for k in edited:
+    for k in sorted(set(edited) | set(shared_first.values())):
         nd, nn = nodes[k]
         lines.append(_leaf_new_line(k, nd, nn))
         nd["uref"] = k
+    for nd, nn in nodes:
+        if nd.get("share") in shared_first and nd["op"] in LEAVES:
+            nd["uref"] = shared_first[nd["share"]]
     call_line = " ".join(["call", str(n), *tree_tokens(tree, n)])
     spans = []
     smooth = _has_smooth(tree)
@@ -798,6 +819,114 @@ def session_lines(case: dict) -> tuple[list[str], list[tuple[int, int]]]:
         # "rebuild": the model has no such operation - a tree is the expression on the current objects
         spans.append((a, len(lines)))
     return lines, spans
+
+
+# --------------------------------------------------------------------------- storage histories (`Hist` of the model)
+
+
+def store_tokens(node: dict, n: int) -> list[str] | None:
+    """The tree in the `stree` syntax of Driver/C10.lean, None outside the fragment of `SExpr` (user functions
+    returning views or new arrays; restriction, linear composition, the four operators between functions, generic
+    negation, concatenation)."""
+    from harness.c10_tree import view_indices
+
+    op = node["op"]
+    if op == "poly":
+        if node.get("style") == "w":
+            return ["W", ",".join(str(i) for i in view_indices(n, node["view"]))]
+        return ["P", str(len(node["polys"])), *[_poly_tok(p) for p in node["polys"]]]
+    if op in BINOPS:
+        if node["b"]["op"] in ("num", "arr"):
+            return None
+        a, b = store_tokens(node["a"], n), store_tokens(node["b"], n)
+        return None if a is None or b is None else [op, *a, *b]
+    if op == "neg":
+        a = store_tokens(node["a"], n)
+        return None if a is None else ["neg", *a]
+    if op == "res":
+        a = store_tokens(node["a"], node["N"])
+        return None if a is None else ["res", str(node["N"]), ",".join(map(str, node["frozen"])), _rl(node["values"]), *a]
+    if op == "lc":
+        a = store_tokens(node["a"], len(node["A"]))
+        return None if a is None else ["lc", str(len(node["A"])), *[_rl(r) for r in node["A"]], *a]
+    if op == "cat":
+        parts = [store_tokens(a, n) for a in node["args"]]
+        if any(p is None for p in parts):
+            return None
+        return ["cat", str(len(parts)), *[t for p in parts for t in p]]
+    return None
+
+
+def store_lines(case: dict) -> tuple[list[str], list[int]] | None:
+    """Lines of the storage history of a session (buffer writes and evaluate/func calls of the root) and the steps of
+    the `hc` lines, None when the session is outside the storage model (other node kinds, edited parameters)."""
+    n = case["n"]
+    sc = case["script"]
+    if any(s["do"] in ("set", "rebuild") for s in sc) or not sc or sc[0]["do"] != "x":
+        return None
+    toks = store_tokens(case["tree"], n)
+    if toks is None:
+        return None
+    call = " ".join(["hc", str(n), *toks])
+    lines, steps = [], []
+    for k, st in enumerate(sc):
+        if st["do"] == "x":
+            lines.append(("hs " if k == 0 else "hw ") + _rl(st["p"]))
+        elif st["do"] in ("v", "f") and not st.get("on"):
+            lines.append(call)
+            steps.append(k)
+    return (lines, steps) if steps else None
+
+
+def compare_store_with_model(case: dict, obs: dict, lines: list[str], steps: list[int], answers: list[str], close, Q) -> list[str]:
+    """Storage pattern of the returned values: model (`Hist.step`) against the real arrays.
+
+    For every evaluate/func call of the root: is the returned array (a view of) the caller's buffer, which earlier
+    returned arrays does it share storage with, and which of the kept arrays no longer show the numbers they showed
+    when they were returned (the model: never - `kept_results_keep_their_values`)."""
+    diffs: list[str] = []
+    calls = [a for ln, a in zip(lines, answers) if ln.startswith("hc ")]
+    model_v: list[list[Fraction]] = []
+    model_kept_steps: list[int] = []
+    for i, (k, ans) in enumerate(zip(steps, calls)):
+        rec = obs["steps"][k] if k < len(obs.get("steps", [])) else {}
+        if "exc" in rec or "in_buffer" not in rec:
+            diffs.append(f"step {k}: the call raised or was not observed ({rec.get('exc')}), model {ans}")
+            break
+        parts = dict(t.split("=", 1) for t in ans.split(" ") if "=" in t)
+        if set(parts) != {"v", "buf", "shares", "kept"}:
+            diffs.append(f"step {k}: model answers {ans}")
+            break
+        v = [] if parts["v"] == "[]" else [Fraction(t) for t in parts["v"].split(",")]
+        model_v.append(v)
+        cur = next(s_["p"] for s_ in reversed(case["script"][:k]) if s_["do"] == "x")
+        try:
+            exp_v, _, _ = oracle_eval(case["tree"], [Fraction(t) for t in cur])
+        except Undefined:
+            exp_v = None
+        got = rec.get("got")
+        if exp_v is not None:
+            if got is None or len(got) != len(v):
+                diffs.append(f"step {k}: value at {cur}: code {got}, storage model {[rat(t) for t in v]}")
+            else:
+                for i_, (g, e) in enumerate(zip(got, v)):
+                    sc_ = exp_v[i_] if i_ < len(exp_v) else Q(e)
+                    if not close(g, Q(e, sc_.m, sc_.d))[0]:
+                        diffs.append(f"step {k}: value[{i_}] at {cur}: code {g!r}, storage model {rat(e)}")
+                        break
+        m_buf = parts["buf"] == "1"
+        if m_buf != rec["in_buffer"]:
+            diffs.append(f"step {k}: the returned array {'is' if rec['in_buffer'] else 'is not'} (a view of) the caller's buffer, model: {'is' if m_buf else 'is not'}")
+        m_shares = [] if parts["shares"] == "-" else [steps[int(t)] for t in parts["shares"].split(",")]
+        if sorted(m_shares) != sorted(rec.get("shares_with", [])):
+            diffs.append(f"step {k}: the returned array shares its storage with the arrays returned at steps {rec.get('shares_with')}, model: {m_shares}")
+        if not m_buf:
+            model_kept_steps.append(k)
+        now = [] if parts["kept"] == "-" else [([] if u == "[]" else [Fraction(t) for t in u.split(",")]) for u in parts["kept"].split(";")]
+        m_changed = [ks for ks, cur in zip(model_kept_steps, now) if cur != model_v[steps.index(ks)]]
+        if sorted(m_changed) != sorted(rec.get("kept_changed", [])):
+            diffs.append(f"step {k}: the arrays returned at steps {rec.get('kept_changed')} no longer show the values they were returned with, model: {m_changed}")
+    return diffs
 
 
 def parse_obj(ans: str) -> dict | None:
